@@ -8,7 +8,7 @@ RULE = ('well-formed messages: random subsets of the configured elements (every 
         '12 codecs x {binary, hex} bitmap x {packaged, generated configurations with PAN / PAN-PREFIX / PDS / ICC processors}; '
         'thorough adds every single element at many lengths; non-trivial = distinct message with at least one data element')
 EXHAUSTIVE = {}
-ASSUMPTIONS = ['decimal typed fields (generated in one configuration in five of the generated ones, judged by the round-trip oracle) and non-canonical date strings are outside the model (Unmodelled, skipped by the comparer)',
+ASSUMPTIONS = ['decimal typed elements (one generated configuration in five): the plain fixed-point sub-domain is modelled (a Decimal is carried by its text, model/Dec.v); exponent forms, NaN / Infinity, underscores and non-ASCII digits are Unmodelled, as are non-canonical date strings (skipped by the comparer)',
                'DE43_* entries are compared with the regex model (pattern translated from the configuration on every run)']
 
 
@@ -27,8 +27,8 @@ def gen(rng, tier):
         hexbm = (i // len(iu.CODECS)) % 2 == 1
         if i % 3 == 2:
             dec = i % 15 == 14
-            # (one generated configuration in five also has decimal typed elements: outside the model and the theorem's
-            # domain, judged by the round-trip oracle alone)
+            # (one generated configuration in five also has decimal typed elements: outside the message-level theorem's
+            # domain wf_cfgb; the model carries a decimal by its text - model/Dec.v, C01_decimal_element - and is compared too)
             cfg = iu.gen_config(rng, allbits=(i % 9 == 8), modelled_only=True, decimals=dec)   # otherwise the theorem's domain: wf_cfgb
             m = iu.rand_message(rng, cfg, codec)
             # (`global`: the caller has REPLACED the packaged configuration - cardutil.config.config['bit_config'] = ... after
@@ -104,8 +104,8 @@ def judge(case, io_, mo):
     extra = [k for k in d if k not in m and not iu.derived_key(cfg, k)]
     if extra and not ps:
         ps.append({'kind': 'oracle', 'sig': 'undocumented-extra-key', 'msg': 'extra keys %s' % extra[:3]})
-    if mo is not None and not ps and not case.get('dec'):
-        if mo[1] != 'OK 111':
+    if mo is not None and not ps:
+        if mo[1] != 'OK 111' and not case.get('dec'):
             # generator and theorem domain disagree: the case is outside wf_cfgb / codec_okb / wf_msgb
             ps.append({'kind': 'corr', 'sig': 'domain', 'msg': 'generated message is not in the theorem domain (wf_cfg, codec_ok, wf_msg) = %s' % mo[1]})
             return ps
